@@ -196,6 +196,31 @@ def instances(env, cfg, family, B, seed):
                     td["distance_limit"] = dl
             return td
         return td
+    if family == "chain":
+        # MTVRP with windows: the first linehaul customers form a chain depot -> c1 -> c2 -> c3 whose windows close 2e-3 after
+        # the exact arrival along the chain (travel = distance / speed, service times added): the chain is feasible with a
+        # margin above the oracle's band, and any clock that runs ahead or behind by more than that hides or admits it
+        if name == "mtvrp" and n >= 3:
+            tw, locs = td["time_windows"].clone(), td["locs"]
+            has_tw = torch.isfinite(tw[:, 1:, 1]).any(-1)
+            for b in range(B):
+                if not bool(has_tw[b]):
+                    continue
+                sp = float(td["speed"].reshape(B)[b])
+                lh, bh = td["demand_linehaul"][b], td["demand_backhaul"][b]
+                cand = [j for j in range(1, n + 1) if float(lh[j]) > 0 and float(bh[j]) == 0]
+                cand = sorted(cand, key=lambda j: float(lh[j]))[:3]
+                if len(cand) < 2:
+                    continue
+                t, cur = 0.0, 0
+                for j in cand:
+                    t = t + float((locs[b, cur] - locs[b, j]).norm()) / sp
+                    tw[b, j, 0], tw[b, j, 1] = 0.0, t + 2e-3
+                    t = t + float(td["service_time"][b, j])
+                    cur = j
+            td["time_windows"] = tw
+            return td
+        return td
     if family == "twins":
         # near-coincident customer pairs (a, a') with a tight window on a': a opens late (every vehicle waits for it), a' closes
         # 0.6*delta after a's service ends while a' lies delta away from a - so a' is infeasible right after a by a margin
